@@ -196,17 +196,36 @@ class ExactCG:
     ift = None
     simplify = True          # closed forms are simplified entry by entry (cheap for sparse systems; switch off for dense symbolic matrices)
 
+    log = []                 # one entry per call: (consistent?, detail) -- the call-site precondition of the solver's contract (C14): the
+                             # energy's gradient is A x - b at its position.  Contracts that install ExactCG must discharge it.
+
     def __init__(self, controller=None, nreset=20):
         pass
 
     def __call__(self, energy, preconditioner=None):
         ift = ExactCG.ift
         A, b = energy._A, energy._b
+        try:
+            want = flat(A(energy.position) - b)
+            got = flat(energy.gradient)
+            bad = [str(sp.simplify(sp.expand(g - w)))[:200] for g, w in zip(got, want) if sp.expand(g - w) != 0 and sp.simplify(sp.expand(g - w)) != 0]
+            ExactCG.log.append((not bad and len(got) == len(want), "; ".join(bad[:2])))
+        except Exception as e:  # noqa: BLE001
+            ExactCG.log.append((False, f"{type(e).__name__}: {e}"[:200]))
         M = dense_matrix(ift, A)
         x = list(M.LUsolve(sp.Matrix(flat(b))))
         if ExactCG.simplify:
             x = [sp.simplify(e) for e in x]
         return energy.at(unflatten_like(ift, A.domain, x)), 0
+
+    @classmethod
+    def discharge(cls, chk, label):
+        """emit the call-site precondition obligation for all solver calls since the last discharge"""
+        calls, cls.log = cls.log, []
+        bad = [d for ok, d in calls if not ok]
+        chk.obligation(f"{label}: every energy handed to the conjugate-gradient solver is consistent (gradient == A x - b at its position; {len(calls)} calls) "
+                       "-- call-site precondition of the solver's contract (C14)", "discharged" if calls and not bad else ("refuted" if bad else "undecided"),
+                       backend="contract-stub", detail="; ".join(bad[:2]) if bad else ("" if calls else "the solver was never called"))
 
 
 import contextlib  # noqa: E402
